@@ -246,6 +246,8 @@ pub struct Global {
     pub faults_suspended: bool,
     pub pending_exit: i64,
     pub poison_note: String,
+    /// (clock before, clock after) of every time-jump fault that fired
+    pub timejumps: Vec<(u64, u64)>,
     /// descriptors that were open before the simulation started (not the library's)
     pub baseline_fds: Vec<bool>,
 }
@@ -467,6 +469,7 @@ fn reschedule(my: usize, exiting: bool) {
         for i in 0..gl.cfg.faults.len() {
             if let Fault::TimeJump { step, ns } = gl.cfg.faults[i] {
                 if step == gl.steps {
+                    gl.timejumps.push((gl.clock_ns, gl.clock_ns + ns));
                     gl.clock_ns += ns;
                     gl.stats.f_timejump += 1;
                     trace(S_FAULT, 6, ns as i64, 0);
@@ -688,6 +691,7 @@ pub fn start(cfg: Config) {
         faults_suspended: false,
         pending_exit: 0,
         poison_note: String::new(),
+        timejumps: Vec::new(),
         baseline_fds: (0..4096).map(|fd| unsafe { raw6(libc::SYS_fcntl, fd, libc::F_GETFD as i64, 0, 0, 0, 0) } >= 0).collect(),
     });
     for p in gl.procs.iter_mut() {
